@@ -16,6 +16,8 @@ def make_block_case(rng, i):
     imex = (i % 4 == 3)
     jacobi = True if nl > 1 else (rng.random() < 0.5)
     nn = sorted([rng.choice([2, 3]) for _ in range(nl)], reverse=True)
+    if nl > 1 and i % 6 == 4:
+        nn[-1] = 1                      # a coarse level with a single collocation node
     nsw = [rng.choice([1, 2]) for _ in range(nl - 1)] + [1]
     if nl == 1:
         nsw = [rng.choice([1, 2])] if jacobi else [1]      # it_coarse (Gauss-Seidel) always does one sweep
